@@ -406,15 +406,19 @@ def dfs_explore(ctx, cfg, max_execs):
     return traces, len(visited), complete
 
 
-def tlc_validate(ctx, wd, traces, n, w, strict, tag, calls=1):
-    """Validate a batch of traces (same N, W) with TLC; returns (reached list, failing list)."""
+def tlc_validate(ctx, wd, traces, n, w, strict, tag, calls=1, account=None):
+    """Validate a batch of traces (same N, W) with TLC; returns (reached list, failing list).  account: a list that
+    receives (result, name) instead of calling ctx.tlc here (batches are validated in parallel threads)."""
     tj = tlc.json_dump(os.path.join(wd, 'traces_%s.json' % tag), traces)
     oj = os.path.join(wd, 'out_%s.json' % tag)
     cfg = tlc.write_cfg(os.path.join(wd, 'trace_%s.cfg' % tag), spec='TSpec',
                         constants={'N': n, 'W': w, 'AtomicPublish': True, 'Calls': calls, 'Configs': Raw('{}'), 'None': Raw('None'), 'Strict': strict},
                         deadlock=False, postcondition='Post')
     res = tlc.run(TRACE, cfg, workers=1, coverage=False, env=dict(VERIF_TRACES=tj, VERIF_OUT=oj), timeout=1700)
-    ctx.tlc(res, 'SchedTrace/%s/%s' % (tag, 'strict' if strict else 'observer'))
+    if account is None:
+        ctx.tlc(res, 'SchedTrace/%s/%s' % (tag, 'strict' if strict else 'observer'))
+    else:
+        account.append((res, 'SchedTrace/%s/%s' % (tag, 'strict' if strict else 'observer')))
     if not res.ok:
         raise tlc.MachineryError('SchedTrace %s: %s\n%s' % (tag, res.violation, res.out[-2000:]))
     with open(oj) as f:
@@ -449,17 +453,32 @@ def corrupted_twins(traces):
     return out
 
 
+_JUDGE_LOCK = __import__('threading').Lock()
+
+
 def judge_traces(ctx, traces, n, w, wd=None, tag='t', calls=1):
     """Property-level judgement (observer mode) + drift detection (strict mode) of recorded traces.
-    Returns the number of traces violating an invariant owned by ctx.pid."""
+    Returns the number of traces violating an invariant owned by ctx.pid.  The two TLC runs touch nothing shared; the
+    judgement and all accounting happen under a lock, so that batches can be handled by parallel threads."""
     wd = wd or tlc.workdir('schedtr')
     full = [t for t in traces if not t.get('pruned')]
-    nbad = 0
     if not traces:
         return 0
     twins = corrupted_twins(traces) if hasattr(ctx, 'cov') and isinstance(getattr(ctx, 'cov', None), dict) and 'tlc_runs' in ctx.cov else []
+    drops = [t for k, t in twins if k == 'drop']
+    acc = []
+    obs_out = tlc_validate(ctx, wd, traces + [t for _, t in twins], n, w, False, tag + 'o', calls, account=acc)
+    strict_out = tlc_validate(ctx, wd, full + drops, n, w, True, tag + 's', calls, account=acc)
+    with _JUDGE_LOCK:
+        for res, name in acc:
+            ctx.tlc(res, name)
+        return _judge(ctx, traces, full, twins, drops, obs_out, strict_out)
+
+
+def _judge(ctx, traces, full, twins, drops, obs_out, strict_out):
+    nbad = 0
     # observer: invariants on implementation states
-    reached, failing = tlc_validate(ctx, wd, traces + [t for _, t in twins], n, w, False, tag + 'o', calls)
+    reached, failing = obs_out
     for (kind, tw), fl in zip(twins, failing[len(traces):]):
         if kind == 'payload' and 'C01_PayloadVisible' not in fl:
             raise tlc.MachineryError('binding self-test: SchedTrace (observer) accepts a trace in which a dependent saw its DONE dependency '
@@ -484,8 +503,7 @@ def judge_traces(ctx, traces, n, w, wd=None, tag='t', calls=1):
                           '(verdict %s, master raised %r)' % (mine, tr['verdict'], tr['raised']),
                           dict(cfg=tr['cfg'], schedule=tr['schedule'], failing=mine), module='conf_sched')
     # strict: does the implementation still follow the implementation-level model?
-    drops = [t for k, t in twins if k == 'drop']
-    reached, _ = tlc_validate(ctx, wd, full + drops, n, w, True, tag + 's', calls)
+    reached, _ = strict_out
     for tw, r in zip(drops, reached[len(full):]):
         if r == len(tw['events']) + 2:
             raise tlc.MachineryError('binding self-test: SchedTrace (strict) accepts a trace with one event removed')
@@ -523,6 +541,10 @@ def replay_case(case):
                init={str(i + 1): s for i, s in enumerate(c['init']) if s != 'ABSENT'}, calls=c.get('calls', 1))
     if c.get('nested'):
         cfg['nested'] = c['nested']
+    if c.get('prior'):
+        cfg['prior'] = c['prior']
+    if c.get('outcome_real'):
+        cfg['outcome'] = {str(i + 1): o for i, o in enumerate(c['outcome_real'])}
     ex, trace = schedrun.record(cfg, detsched.Replay(case['schedule']))
 
     class _Ctx:
@@ -633,9 +655,11 @@ def _common(ctx, invs, mc_runs, witnesses, impl_plan, sim_plan, dfs_plan):
         all_groups.setdefault((cfg['n'], cfg['workers'], cfg.get('calls', 1)), []).extend(traces)
         ctx.cov.setdefault('dfs', []).append(dict(cfg=cfg, executions=len(traces), distinct_states=nstates, complete=complete))
     _tick(ctx, 'DFS exploration')
-    for (n, w, calls), traces in sorted(all_groups.items()):
-        for k in range(0, len(traces), 1500):
-            judge_traces(ctx, traces[k:k + 1500], n, w, wd, tag='n%dw%dc%d_%d' % (n, w, calls, k), calls=calls)
+    batches = [(traces[k:k + 1000], n, w, calls, k) for (n, w, calls), traces in sorted(all_groups.items())
+               for k in range(0, len(traces), 1000)]
+    from concurrent.futures import ThreadPoolExecutor
+    with ThreadPoolExecutor(max_workers=5) as tp:      # each batch = two single-worker TLC runs; the judgement is serialised
+        list(tp.map(lambda b: judge_traces(ctx, b[0], b[1], b[2], wd, tag='n%dw%dc%d_%d' % (b[1], b[2], b[3], b[4]), calls=b[3]), batches))
     _tick(ctx, 'trace validation by TLC')
     smp = next(iter(all_groups.values()))[0] if all_groups else None
     if smp:
